@@ -74,9 +74,12 @@ type Ackqueue struct {
 	head  int64
 	tail  int64
 
-	ping AckMsg
-	ring []AckMsg
-	emap map[uint16]int64
+	// pings holds the PINGREQ requests waiting for their PINGRESP, oldest first.
+	// PINGREQ/PINGRESP carry no packet ID, so the n-th PINGRESP answers the n-th
+	// PINGREQ.
+	pings []AckMsg
+	ring  []AckMsg
+	emap  map[uint16]int64
 
 	ackdone []AckMsg
 
@@ -123,13 +126,14 @@ func (aq *Ackqueue) Wait(msg message.Message, onComplete interface{}) error {
 		aq.insert(msg.PacketID(), msg, onComplete)
 
 	case *message.PingreqMessage:
-		aq.ping = AckMsg{
+		am := AckMsg{
 			Mtype:      message.PINGREQ,
 			State:      message.RESERVED,
 			Msgbuf:     make([]byte, 2),
 			OnComplete: onComplete,
 		}
-		msg.Encode(aq.ping.Msgbuf)
+		msg.Encode(am.Msgbuf)
+		aq.pings = append(aq.pings, am)
 
 	default:
 		return errWaitMessage
@@ -162,10 +166,14 @@ func (aq *Ackqueue) Ack(msg message.Message) error {
 		}
 
 	case message.PINGRESP:
-		if aq.ping.Mtype == message.PINGREQ {
-			aq.ping.State = message.PINGRESP
-			aq.ping.Ackbuf = make([]byte, 2)
-			msg.Encode(aq.ping.Ackbuf)
+		// The PINGRESP answers the oldest PINGREQ that is still waiting for one
+		for i := range aq.pings {
+			if aq.pings[i].State != message.PINGRESP {
+				aq.pings[i].State = message.PINGRESP
+				aq.pings[i].Ackbuf = make([]byte, 2)
+				msg.Encode(aq.pings[i].Ackbuf)
+				break
+			}
 		}
 
 	default:
@@ -182,9 +190,11 @@ func (aq *Ackqueue) Acked() []AckMsg {
 
 	aq.ackdone = aq.ackdone[0:0]
 
-	if aq.ping.State == message.PINGRESP {
-		aq.ackdone = append(aq.ackdone, aq.ping)
-		aq.ping = AckMsg{}
+	for len(aq.pings) > 0 && aq.pings[0].State == message.PINGRESP {
+		aq.ackdone = append(aq.ackdone, aq.pings[0])
+		// set this to empty ackmsg{} to ensure GC will collect the buffer
+		aq.pings[0] = AckMsg{}
+		aq.pings = aq.pings[1:]
 	}
 
 FORNOTEMPTY:
